@@ -61,7 +61,17 @@ pub fn upload_run(args: &[String]) -> anyhow::Result<()> {
             let content = rng.bytes(size);
             let p = dir.join(PATHS[i].0);
             std::fs::create_dir_all(p.parent().unwrap())?;
-            std::fs::write(&p, &content)?;
+            if rng.chance(1, 6) {
+                // the recognised path is a symbolic link to the artefact kept elsewhere
+                let store = dir.join("store");
+                std::fs::create_dir_all(&store)?;
+                let target = store.join(format!("artefact-{}.bin", i));
+                std::fs::write(&target, &content)?;
+                let _ = std::fs::remove_file(&p);
+                std::os::unix::fs::symlink(&target, &p)?;
+            } else {
+                std::fs::write(&p, &content)?;
+            }
             files.push((PATHS[i].0.to_string(), PATHS[i].1, content));
         }
         let mut unrelated = vec![];
@@ -138,8 +148,17 @@ pub fn upload_run(args: &[String]) -> anyhow::Result<()> {
         }
         // the connection takes everything at once, or only so many bytes per write
         let wchunk = *rng.pick(&[0u64, 0, 0, 1, 100, 1500, 16384]);
+        // one upload in four: somewhere in the PT's script the bytes stop for a while (in the middle of a frame, or between two)
+        // (inside one of the first three frames behind the acknowledgement, so that the exchange is still running)
+        let lens: Vec<usize> = frames.iter().map(|f| f["bytes"].as_array().map(|a| a.len()).unwrap_or(0)).collect();
+        let (pause_at, pause_ms) = if rng.chance(1, 4) && lens.len() >= 2 {
+            let j = (rng.range(1, 3) as usize).min(lens.len() - 1);
+            let start: usize = lens[..j].iter().sum();
+            let inside = if lens[j] > 1 && rng.chance(4, 5) { rng.range(1, lens[j] as u64 - 1) as usize } else { 0 };
+            ((start + inside) as u64, *rng.pick(&[2500u64, 11000, 31000, 61000]))
+        } else { (0, 0) };
         let case = json!({"cmd": "WriteFile", "req": [0x08, 0x14, 0x00], "frames": frames, "dir": dir.to_str().unwrap(), "block": block,
-                          "password": 123456, "wchunk": wchunk});
+                          "password": 123456, "wchunk": wchunk, "pause_at": pause_at, "pause_ms": pause_ms});
         let mut out = run_case(&rt, &case);
         // the frames the code wrote: the announcement and the data blocks
         let written = out["written"].as_array().cloned().unwrap_or_default();
